@@ -217,6 +217,13 @@ def stepOp (st : St) (op : Sexp) : Option (St × String) :=
   | .list [.atom "heap", .atom c] =>
     let (h, l) := st.dh.allocList
     some ({ st with dh := h.lazySetup l, heapList := some l, heapCmp := c }, "ok")
+  -- NewHeapFromIterator over a source that yields the first `k` of `vs` and then fails (k ≥ length: no
+  -- failure): the heap handed back — with or without the error — holds what was pushed, in heap order
+  | .list [.atom "heapfrom", .atom c, .list vs, k] => do
+    let (h0, l) := st.dh.allocList
+    let xs := (vs.filterMap Sexp.int?).take (← k.nat?)
+    let h ← xs.foldlM (fun h v => h.heapPush (ltOf c) l v) (h0.lazySetup l)
+    pure ({ st with dh := h, heapList := some l, heapCmp := c }, if vs.length ≤ (← k.nat?) then "ok" else "err")
   | .list [.atom "hpush", v] => do
     let l ← st.heapList
     let before := itemsOf st.dh l
